@@ -10,6 +10,10 @@ def sh(cmd, **kw):
 st = sh("git -C /repo status --porcelain").stdout.strip()
 if st:
     print("REPO NOT CLEAN:\n" + st); sys.exit(2)
+import shutil
+BK = "/verif/out/.evidence-before-seedtest"
+shutil.rmtree(BK, ignore_errors=True)
+shutil.copytree("/verif/evidence", BK)        # evidence describes the unchanged tree only: put back afterwards
 r = sh("git -C /repo apply %s/patch.diff" % d)
 if r.returncode != 0:
     print("patch does not apply:\n" + r.stdout); sys.exit(2)
@@ -27,7 +31,8 @@ try:
             print("   TOOL:", r.stdout[-600:])
 finally:
     sh("git -C /repo checkout -- . && git -C /repo clean -fdq -- src tests")
-    sh("git -C /verif checkout -- evidence")   # evidence describes the unchanged tree only
+    shutil.rmtree("/verif/evidence", ignore_errors=True)
+    shutil.copytree(BK, "/verif/evidence")
     print("repo restored:", sh("git -C /repo status --porcelain").stdout.strip() or "clean")
 p = os.path.join(d, "last_run.json")
 old = json.load(open(p)) if os.path.exists(p) else {}
